@@ -11,8 +11,8 @@ VERIF = os.path.dirname(os.path.dirname(os.path.abspath(__file__)))
 REPO = os.path.abspath(os.environ.get('HL7APY_REPO', '/repo'))
 DEPS = os.path.join(VERIF, '.deps')
 WORK = os.path.join(VERIF, '.work')
-EVIDENCE_DIR = os.path.join(VERIF, 'evidence')
-REPLAY_DIR = os.path.join(VERIF, 'replay')
+EVIDENCE_DIR = os.environ.get('VERIF_EVIDENCE_DIR') or os.path.join(VERIF, 'evidence')
+REPLAY_DIR = os.environ.get('VERIF_REPLAY_DIR') or os.path.join(VERIF, 'replay')
 WHEELS = '/opt/veriftools/wheels'
 PYTHON = sys.executable
 
